@@ -21,6 +21,7 @@ RULE_TEXT = (
     "variable-inlining call has the substituted text as input and the parsed text is exactly the substituted value; "
     "C08.c substitution happens iff the connection's stored style is pyformat/format; C08.d qmark: engine gets the "
     "same params object, text unsubstituted; C08.e executemany: one execute per element, in order."
+    " C08.f = C09.e."
 )
 TRUSTED = ["CPython ast", "snowflake.connector.converter.SnowflakeConverter.to_snowflake/escape/quote", "DuckDB prepared statements"]
 
